@@ -12,4 +12,12 @@ theorem snoc_induction {α : Type _} {P : List α → Prop} (nil : P [])
     | cons a r ih => simpa using snoc r.reverse a ih
   simpa using h l.reverse
 
+theorem flatMap_congr' {α β : Type _} {l : List α} {f g : α → List β} (h : ∀ a ∈ l, f a = g a) :
+    l.flatMap f = l.flatMap g := by
+  induction l with
+  | nil => rfl
+  | cons a l ih =>
+    simp only [List.flatMap_cons]
+    rw [h a (List.mem_cons_self ..), ih (fun b hb => h b (List.mem_cons_of_mem _ hb))]
+
 end List
